@@ -1,0 +1,112 @@
+//! Verification hooks, compiled only with `--features verif_hooks` (never part of a normal build).
+//!
+//! They expose, unchanged, a few crate-private entry points that the external verification
+//! harness needs to drive: the generic `index_left` bisection, the Python-facing `Curve`
+//! (constructor, look-ups, order switches, node read-back, JSON, pickling bytes) and the tagged
+//! `from_json` entry point. Nothing here adds behaviour.
+
+use crate::calendars::{CalType, Convention, Modifier};
+use crate::curves::curve_py::Curve;
+use crate::curves::interpolation::utils::index_left;
+use crate::dual::{ADOrder, Number};
+use crate::json::json_py::DeserializedObj;
+use crate::json::JSON;
+use chrono::NaiveDateTime;
+use indexmap::IndexMap;
+
+pub fn index_left_f64(list_input: &[f64], value: f64) -> usize {
+    index_left(list_input, &value, None)
+}
+
+pub fn index_left_i64(list_input: &[i64], value: i64) -> usize {
+    index_left(list_input, &value, None)
+}
+
+/// The Python-facing `Curve` (crate-private type) behind a public handle.
+#[derive(Clone)]
+pub struct CurveHandle(Curve);
+
+impl CurveHandle {
+    #[allow(clippy::too_many_arguments)]
+    pub fn new(
+        nodes: IndexMap<NaiveDateTime, Number>,
+        interpolator: &str,
+        ad: ADOrder,
+        id: String,
+        convention: Convention,
+        modifier: Modifier,
+        calendar: CalType,
+        index_base: Option<f64>,
+    ) -> Result<Self, String> {
+        Curve::verif_new(nodes, interpolator, ad, id, convention, modifier, calendar, index_base)
+            .map(CurveHandle)
+            .map_err(|_| "error".to_string())
+    }
+    pub fn value(&self, date: NaiveDateTime) -> Number {
+        self.0.verif_value(date)
+    }
+    pub fn index_value(&self, date: NaiveDateTime) -> Result<Number, String> {
+        self.0.verif_index_value(date).map_err(|_| "error".to_string())
+    }
+    pub fn set_ad_order(&mut self, ad: ADOrder) {
+        self.0.verif_set_ad_order(ad)
+    }
+    pub fn nodes(&self) -> IndexMap<NaiveDateTime, Number> {
+        self.0.verif_nodes()
+    }
+    pub fn ad(&self) -> ADOrder {
+        self.0.verif_ad()
+    }
+    pub fn node_index(&self, date_timestamp: i64) -> usize {
+        self.0.verif_node_index(date_timestamp)
+    }
+    pub fn eq(&self, other: &CurveHandle) -> bool {
+        self.0.verif_eq(&other.0)
+    }
+    pub fn to_json(&self) -> Result<String, String> {
+        self.0.verif_to_json().map_err(|_| "error".to_string())
+    }
+    /// the bytes `__getstate__` produces
+    pub fn to_bincode(&self) -> Result<Vec<u8>, String> {
+        bincode::serialize(&self.0).map_err(|e| e.to_string())
+    }
+    /// what `__setstate__` does (which unwraps)
+    pub fn from_bincode(bytes: &[u8]) -> Result<Self, String> {
+        bincode::deserialize::<Curve>(bytes).map(CurveHandle).map_err(|e| e.to_string())
+    }
+}
+
+/// Result of the tagged `from_json` entry point: the variant name and the object re-serialised
+/// through the same tagged `to_json`, or the error text of serde_json (never a formatted `PyErr`).
+pub fn from_json_tagged(json: &str) -> Result<(String, String), String> {
+    match DeserializedObj::from_json(json) {
+        Ok(obj) => {
+            let kind = match &obj {
+                DeserializedObj::Dual(_) => "Dual",
+                DeserializedObj::Dual2(_) => "Dual2",
+                DeserializedObj::Cal(_) => "Cal",
+                DeserializedObj::UnionCal(_) => "UnionCal",
+                DeserializedObj::NamedCal(_) => "NamedCal",
+                DeserializedObj::FXRates(_) => "FXRates",
+                DeserializedObj::Curve(_) => "Curve",
+                DeserializedObj::PPSplineF64(_) => "PPSplineF64",
+                DeserializedObj::PPSplineDual(_) => "PPSplineDual",
+                DeserializedObj::PPSplineDual2(_) => "PPSplineDual2",
+            };
+            match obj.to_json() {
+                Ok(s) => Ok((kind.to_string(), s)),
+                Err(e) => Err(format!("re-serialisation failed: {}", e)),
+            }
+        }
+        Err(e) => Err(e.to_string()),
+    }
+}
+
+/// a `Curve` loaded through the tagged entry point
+pub fn curve_from_json_tagged(json: &str) -> Result<CurveHandle, String> {
+    match DeserializedObj::from_json(json) {
+        Ok(DeserializedObj::Curve(c)) => Ok(CurveHandle(c)),
+        Ok(_) => Err("not a Curve".to_string()),
+        Err(e) => Err(e.to_string()),
+    }
+}
